@@ -2,6 +2,11 @@
 
 package websocket
 
+import (
+	"crypto/rand"
+	"io"
+)
+
 // connInv: the representation invariant of a *Conn established by newConn and kept
 // by every method (object graph, back pointers, distinct locks and channels).
 func connInv(c *Conn) bool {
@@ -79,3 +84,32 @@ func specArmedLimit(n int64) int64 {
 
 // The documented default read limit.
 const specDefaultReadLimit = 32768
+
+// specRand: the process-wide random source mask keys are drawn from (crypto/rand.Reader).
+func specRand() io.Reader { return rand.Reader }
+
+// specWritten: the header the writer must have put on the wire for a frame.
+func specFrameHeaderOK(h header, isClient bool, fin bool, flate bool, op opcode, n int) bool {
+	// RFC 6455 5.2 / 5.1 (client frames masked, server frames not), RFC 7692 6.1 (RSV1 only
+	// on the first frame of a compressed message, i.e. a text or binary frame)
+	return h.fin == fin && h.opcode == op && h.payloadLength == int64(n) &&
+		h.rsv1 == (flate && (op == opText || op == opBinary)) && !h.rsv2 && !h.rsv3 && h.masked == isClient
+}
+
+// specWriteInv: the write side of a connection is usable: buffered writer present,
+// buffer accounting in range, and on a client the writeBuf slice is exactly the
+// writer's buffer (that alias is what extractBufioWriterBuf establishes). The bound on
+// the stream position is assumption A-stream (fewer than 2^59 bytes per connection).
+func specWriteInv(c *Conn) bool {
+	if c.bw == nil {
+		return false
+	}
+	g := ghwr(c.bw)
+	if g.pos < 0 || g.pos >= 1<<59 || g.size <= 0 || g.buffered < 0 || g.buffered > g.size {
+		return false
+	}
+	if c.client && len(c.writeBuf) != g.size {
+		return false
+	}
+	return true
+}
